@@ -233,6 +233,9 @@ func nativeReplayMode(paths []string, harnesses []string, race bool) (map[string
 	if err != nil {
 		return nil, "", err
 	}
+	for _, d := range droppedHarnessFiles {
+		delete(ov, d)
+	}
 	var entries []string
 	seen := map[string]bool{}
 	for _, h := range harnesses {
@@ -432,6 +435,11 @@ func cmdCheck(args []string) int {
 		}
 		e, err := sym.NewExplorer(prog, r.Harness)
 		if err != nil {
+			if len(droppedHarnessFiles) > 0 {
+				// its file was left out: this run is inconclusive, the others go on
+				internal = append(internal, fmt.Sprintf("%s: harness unavailable, its file does not type-check against this tree (%v)", r.Harness, err))
+				continue
+			}
 			fmt.Fprintln(os.Stderr, err)
 			return 3
 		}
